@@ -264,7 +264,7 @@ func stores() []func() *store {
 
 func randID(rng *rand.Rand) string {
 	// ids are used verbatim in key ids: surrounding white space, case and punctuation are part of the id
-	pool := []string{"tenant", "user_42", "üñí", "A-B", "x", "日本", "p.q", "12345", "with space", " lead", "trail ", "\ttab", "MiXeD", "a+b|c", "nl\n"}
+	pool := []string{"tenant", "user_42", "üñí", "A-B", "x", "日本", "p.q", "12345", "with space", " lead", "trail ", "\ttab", "MiXeD", "a+b|c", "nl\n", "100%", "user%40example.com", "%s%d", "q\"uote"}
 	s := pool[rng.Intn(len(pool))]
 	if rng.Intn(3) == 0 {
 		s += strconv.Itoa(rng.Intn(1000))
